@@ -118,6 +118,26 @@ def corpus_case(draw, dialect_list=None, maxsize=1500, mutate=None, max_ops=3, k
     return {"dialect": d, "sql": sql, "origin": r["name"], "mutated": n}
 
 
+def fixed_mutants(n_per_dialect, maxsize=500, dialect_list=None, salt="m"):
+    """A fixed (seed-independent) corpus of mutated fixtures: the mutation operators of entry i are derived from
+    SHA-1(salt, dialect, i), so the set is the same in every run and can be saturated once."""
+    import hashlib
+
+    for d in dialect_list or dialects():
+        rows = corpus(d, maxsize)
+        if not rows:
+            continue
+        for i in range(n_per_dialect):
+            h = hashlib.sha1(f"{salt}:{d}:{i}".encode()).digest()
+            r = rows[int.from_bytes(h[0:4], "big") % len(rows)]
+            nops = 1 + h[4] % 3
+            ops = []
+            for k in range(nops):
+                b = h[5 + 4 * k: 9 + 4 * k]
+                ops.append((b[0] % N_OPS, (b[1] * 256 + b[2]) % 1000, 1 + b[3] % 12, b[1] * 7 + b[2], chr(0x20 + b[3] % 0x5f) + chr(0xA0 + b[2] % 0x300)))
+            yield {"dialect": d, "sql": apply_mutation(r["sql"], ops), "origin": r["name"], "mutated": nops}
+
+
 SQLISH = "abcxyzSELCTFROM0123456789 \n\t'\"`()[],;.*-/+=<>!|&%$#@:?{}\\_~^"
 
 
@@ -295,7 +315,9 @@ class SqlGen:
 
 @st.composite
 def gsql_case(draw, dialect="sqlite", **features):
-    rng = draw(st.randoms(use_true_random=False))
+    # uniform=True: random.Random seeded by a drawn integer (uniform choices, few duplicate examples);
+    # default: st.randoms (kept for the checks whose baselines were established with it)
+    rng = seeded_rng(draw) if features.pop("uniform", False) else draw(st.randoms(use_true_random=False))
     g = SqlGen(rng, **features)
     return {"dialect": dialect, "sql": g.finish(g.query()), "origin": "gsql", "mutated": 0}
 
@@ -403,7 +425,7 @@ class JinjaGen:
 
 @st.composite
 def jinja_case(draw, profile=None, **kw):
-    rng = draw(st.randoms(use_true_random=False))
+    rng = seeded_rng(draw) if kw.pop("uniform", False) else draw(st.randoms(use_true_random=False))
     prof = profile or draw(st.sampled_from(["realistic", "adversarial"]))
     g = JinjaGen(rng, profile=prof, **kw)
     return {"dialect": "ansi", "templater": "jinja", "sql": g.block(), "context": dict(JCTX), "profile": prof,
@@ -1020,7 +1042,12 @@ def gsqlx_case(draw, dialect="sqlite", populations=3, max_len=None, **features):
     for i in range(populations):
         pop = {}
         for t, cs in T.items():
-            rows = draw(st.lists(st.lists(val, min_size=len(cs), max_size=len(cs)), min_size=0, max_size=6))
+            if i == 0:
+                # one dense population over a narrow value domain, so that joins and filters usually return rows
+                dense = st.sampled_from([None, 0, 1, 2, 3, "x"])
+                rows = draw(st.lists(st.lists(dense, min_size=len(cs), max_size=len(cs)), min_size=4, max_size=10))
+            else:
+                rows = draw(st.lists(st.lists(val, min_size=len(cs), max_size=len(cs)), min_size=0, max_size=6))
             if rows and draw(st.integers(0, 3)) == 0:
                 rows = rows + [rows[0]]  # duplicates
             pop[t] = rows
@@ -1051,3 +1078,36 @@ def tame_tqdm():
     except Exception:
         pass
     tqdm.tqdm._verif_tamed = True
+
+
+# --------------------------------------------------------------------------- fixed (seed-independent) generated corpora
+# The pinned tier of the lint-level checks uses these: the generators above driven by random.Random(i) for a fixed
+# range of i.  They define a corpus (same in every run, so its baseline can be saturated once); all *seeded*
+# exploration still goes through Hypothesis.
+
+
+def fixed_templates(n, salt=0):
+    import random
+
+    for i in range(n):
+        rng = random.Random(1000003 * (salt + 1) + i)
+        kind = i % 5
+        if kind in (0, 1):
+            prof = "realistic" if kind == 0 else "adversarial"
+            g = JinjaGen(rng, profile=prof, undefined=(i % 10 == 5))
+            yield {"dialect": "ansi", "templater": "jinja", "sql": g.block(), "context": dict(JCTX), "profile": prof,
+                   "origin": "fixed-jinja"}
+        elif kind == 2:
+            pieces = ["SELECT ", " FROM ", "\n", "  ", "a", ", ", " WHERE x = 1", "{{", "}}", "{a}", "{b}", "{tbl}", "{a!r}",
+                      "{b:>4}", "{a:<6}", "{w!s}", "{foo.bar}", "{a.b}", "{b:04d}", "-- c\n", "'s'", "{", "}", "{}", "{missing}"]
+            yield {"dialect": "ansi", "templater": "python", "sql": "".join(rng.choice(pieces) for _ in range(rng.randint(1, 8))),
+                   "context": dict(PYCTX), "dotted": dict(PYDOT), "origin": "fixed-pyfmt"}
+        elif kind == 3:
+            style = sorted(PH_EXAMPLES)[i % len(PH_EXAMPLES)]
+            lits = ["SELECT ", "a", " FROM ", "t", " WHERE x = ", "\n", " ", ", ", "tbl", "::", ":", "\\", "'q'", "(", ")", "1", "="]
+            parts = [rng.choice(PH_EXAMPLES[style]) if rng.random() < 0.5 else rng.choice(lits) for _ in range(rng.randint(1, 9))]
+            yield {"dialect": "ansi", "templater": "placeholder", "sql": "".join(parts), "param_style": style,
+                   "context": {"name": "nval", "a": "aval"} if i % 2 else {}, "origin": "fixed-placeholder"}
+        else:
+            g = SqlGen(rng, distinct=True)
+            yield {"dialect": "sqlite", "templater": "raw", "sql": g.finish(g.query()), "origin": "fixed-gsql", "mutated": 0}
